@@ -561,21 +561,27 @@ def _class_ast(  # pylint: disable=too-many-arguments
     )
 
 
-def _kwargs_ast(
+def _call_args_ast(
     ctx: GeneratorContext,
+    head_ast: GeneratedPyAST[ast.expr],
+    args: Iterable[Node],
     kwargs: KeywordArgs,
-) -> tuple[PyASTStream, PyASTStream]:
-    """Return a tuple of dependency nodes and Python `ast.keyword` nodes from a
-    Basilisp `KeywordArgs` Node property."""
-    kwargs_keys, kwargs_nodes = [], []
-    kwargs_deps: list[PyASTNode] = []
-    for k, v in kwargs.items():
-        kwargs_keys.append(k)
-        kwarg_ast = gen_py_ast(ctx, v)
-        kwargs_nodes.append(kwarg_ast.node)
-        kwargs_deps.extend(kwarg_ast.dependencies)
+) -> tuple[Iterable[PyASTNode], ast.expr, list[ast.expr], list[ast.keyword]]:
+    """Return a tuple of dependency nodes, the node of the callee (or interop target),
+    the positional argument nodes and the Python `ast.keyword` nodes of a call.
+
+    The callee, the positional arguments and the keyword argument values are chained
+    together so they are evaluated exactly once, in the order they were written."""
+    kwargs_keys = list(kwargs.keys())
+    args_asts = [gen_py_ast(ctx, arg) for arg in args]
+    deps, (head_node, *nodes) = _chain_py_ast(
+        head_ast, *args_asts, *(gen_py_ast(ctx, kwargs[k]) for k in kwargs_keys)
+    )
+    args_nodes, kwargs_nodes = nodes[: len(args_asts)], nodes[len(args_asts) :]
     return (
-        kwargs_deps,
+        deps,
+        head_node,
+        args_nodes,
         [ast.keyword(arg=k, value=v) for k, v in zip(kwargs_keys, kwargs_nodes)],
     )
 
@@ -2569,10 +2575,9 @@ def _invoke_to_py_ast(ctx: GeneratorContext, node: Invoke) -> GeneratedPyAST[ast
     assert node.op == NodeOp.INVOKE
 
     fn_ast = gen_py_ast(ctx, node.fn)
-    args_deps, (fn_node, *args_nodes) = _chain_py_ast(
-        fn_ast, *map(partial(gen_py_ast, ctx), node.args)
+    deps, fn_node, args_nodes, kwargs_nodes = _call_args_ast(
+        ctx, fn_ast, node.args, node.kwargs
     )
-    kwargs_deps, kwargs_nodes = _kwargs_ast(ctx, node.kwargs)
 
     return GeneratedPyAST(
         node=ast.Call(
@@ -2580,7 +2585,7 @@ def _invoke_to_py_ast(ctx: GeneratorContext, node: Invoke) -> GeneratedPyAST[ast
             args=list(args_nodes),
             keywords=list(kwargs_nodes),
         ),
-        dependencies=list(chain(args_deps, kwargs_deps)),
+        dependencies=list(deps),
     )
 
 
@@ -3449,10 +3454,9 @@ def _interop_call_to_py_ast(
     assert node.op == NodeOp.HOST_CALL
 
     target_ast = gen_py_ast(ctx, node.target)
-    args_deps, (target_node, *args_nodes) = _chain_py_ast(
-        target_ast, *map(partial(gen_py_ast, ctx), node.args)
+    deps, target_node, args_nodes, kwargs_nodes = _call_args_ast(
+        ctx, target_ast, node.args, node.kwargs
     )
-    kwargs_deps, kwargs_nodes = _kwargs_ast(ctx, node.kwargs)
 
     return GeneratedPyAST(
         node=ast.Call(
@@ -3464,7 +3468,7 @@ def _interop_call_to_py_ast(
             args=list(args_nodes),
             keywords=list(kwargs_nodes),
         ),
-        dependencies=list(chain(args_deps, kwargs_deps)),
+        dependencies=list(deps),
     )
 
 
